@@ -78,6 +78,15 @@ func (s *DiscoveryStrategy) GetRoutableEndpoints(
 	}
 
 	// no healthy endpoints have the model - trigger discovery refresh if configured
+	if !s.options.DiscoveryRefreshOnMiss && s.options.FallbackBehavior == constants.FallbackBehaviorAll {
+		// No refresh to wait for, but fallback "all" still means: use the healthy set
+		return healthyEndpoints, ports.NewRoutingDecision(
+			s.Name(),
+			ports.RoutingActionFallback,
+			constants.RoutingReasonAllHealthyFallback,
+		), nil
+	}
+
 	if !s.options.DiscoveryRefreshOnMiss {
 		s.logger.Debug("Discovery refresh disabled, rejecting request",
 			"model", modelName)
